@@ -50,6 +50,8 @@ inductive ClientErr
   | noStanzas                    -- "received zero recipient stanzas"
 deriving DecidableEq, Repr, Inhabited
 
+deriving instance DecidableEq for Except
+
 /-- the errors that do NOT come from a clean `done` -/
 def ClientErr.hard : ClientErr → Prop
   | .pluginError _ => True
